@@ -225,6 +225,39 @@ func c01tree(res *run.Result, v resp.Value) {
 	if err != nil || !bytes.Equal(again, want) {
 		res.Violate("C01c:"+kindPath(v), "re-serializing a parsed canonical value reproduces the input bytes", fmt.Sprintf("err=%v got %s want %s", err, hexClip(again, 200), hexClip(want, 200)), desc())
 	}
+	// (d) a value tree is a live object: serialized, then changed below the top (an element appended to a nested
+	// array, the payload of an element replaced), then serialized again, it encodes what it holds NOW
+	if v.K == '*' && len(v.A) > 0 && len(res.Violations) == 0 {
+		top := proto.NewMessageWithType(proto.ArrayMessage)
+		top.SetArray(proto.NewArray())
+		kids := make([]*proto.Message, len(v.A))
+		for i, e := range v.A {
+			kids[i] = buildProto(e)
+			top.Append(kids[i])
+		}
+		if first, err := top.RESPBytes(); err != nil || !bytes.Equal(first, want) {
+			res.Violate("C01a:rebuilt:"+kindPath(v), "RESPBytes() == independent canonical encoding", fmt.Sprintf("err=%v got %s want %s", err, hexClip(first, 200), hexClip(want, 200)), desc())
+			return
+		}
+		v2 := resp.Value{K: '*', A: append([]resp.Value{}, v.A...)}
+		at := int(res.Key % uint64(len(v.A)))
+		switch e := v.A[at]; {
+		case e.K == '*' && !e.Null:
+			kids[at].Append(buildProto(resp.BulkS("grown")))
+			v2.A[at] = resp.Value{K: '*', A: append(append([]resp.Value{}, e.A...), resp.BulkS("grown"))}
+		case e.K == ':':
+			kids[at].SetBytes([]byte("-42"))
+			v2.A[at] = resp.Value{K: ':', B: []byte("-42")}
+		default:
+			kids[at].SetBytes([]byte("changed"))
+			v2.A[at] = resp.Value{K: e.K, B: []byte("changed")}
+		}
+		want2 := resp.Encode(v2)
+		if second, err := top.RESPBytes(); err != nil || !bytes.Equal(second, want2) {
+			res.Violate("C01a:after-change:"+kindPath(v), "serializing a value yields the value it holds (also after it was serialized once and then changed below the top)", fmt.Sprintf("element %d changed after the first serialization; err=%v got %s want %s", at, err, hexClip(second, 200), hexClip(want2, 200)), desc())
+			return
+		}
+	}
 	if res.Idx%997 == 0 {
 		res.Sample = desc()
 	}
@@ -326,7 +359,7 @@ func init() {
 	run.Register(&run.Prop{
 		ID: "C01", Level: "exploration",
 		Rule: func(tier string) string {
-			return "case = one RESP2 value tree (or constructor argument): bounded-exhaustive set (all status/error payloads <=3 over {a,NUL,$,*,+,-,:,0,1,0xff}, all bulk payloads <=3 over that alphabet plus CR and LF, null bulk, 28 boundary integers, arrays of arity<=3/depth<=3 over representative scalars) followed by seeded random trees (bulk <=64KiB over all byte values, arity<=40, depth<=6) and random int/float/string constructor arguments; each tree is judged by four equalities against an independent strict codec; distinct = hash of the canonical encoding; non-trivial = contains CR, LF, NUL, a type byte at payload start, an empty/null bulk, nesting>=2, or is a boundary constructor argument"
+			return "case = one RESP2 value tree (or constructor argument): bounded-exhaustive set (all status/error payloads <=3 over {a,NUL,$,*,+,-,:,0,1,0xff}, all bulk payloads <=3 over that alphabet plus CR and LF, null bulk, 28 boundary integers, arrays of arity<=3/depth<=3 over representative scalars) followed by seeded random trees (bulk <=64KiB over all byte values, arity<=40, depth<=6) and random int/float/string constructor arguments; each tree is judged by four equalities against an independent strict codec (arrays also after an element below the top was changed between two serializations); distinct = hash of the canonical encoding; non-trivial = contains CR, LF, NUL, a type byte at payload start, an empty/null bulk, nesting>=2, or is a boundary constructor argument"
 		},
 		Assumptions: []string{"the independent RESP2 codec in /verif/harness/resp is correct (it has its own unit tests)", "null arrays (*-1) are outside the statement's value list and are not generated"},
 		Setup: func(tier string, seed uint64) int {
